@@ -1,10 +1,748 @@
 package main
 
+// Resource kinds beyond the prototype's seven: CustomInChan, TCP mailboxes, relaxed mailboxes, SingleOutputChan,
+// Persistent(Local | Local indexed | LocalShared), raftkvs PersistentLog, CRDT(GCounter), TwoPC, NewNested.
+
 import (
+	"bytes"
+	"encoding/gob"
+	"errors"
+	"fmt"
+	"net"
+	"path/filepath"
+	"strconv"
+	"sync"
+	"sync/atomic"
+	"time"
+
 	"github.com/DistCompiler/pgo/distsys"
+	"github.com/DistCompiler/pgo/distsys/resources"
+	"github.com/DistCompiler/pgo/distsys/tla"
+	"github.com/DistCompiler/pgo/systems/raftkvs"
+	"github.com/dgraph-io/badger/v3"
 )
+
+var zeroIface = distsys.ArchetypeInterface{}
+
+func init() {
+	protoTable["cin"] = &resInst{name: "cin", param: "cin", kind: "custominchan", class: clsIn, queue: "cin", noStarve: true}
+	protoTable["tcpin"] = &resInst{name: "tcpin", param: "net", kind: "tcp-mailbox-local", class: clsIn, queue: "tcpin"}
+	protoTable["tcpout"] = &resInst{name: "tcpout", param: "net", kind: "tcp-mailbox-remote", class: clsOut, queue: "tcpout"}
+	protoTable["tcpsub"] = &resInst{name: "tcpsub", param: "fmap", kind: "tcp-mailbox-remote", class: clsOut, queue: "tcpsub"}
+	protoTable["rlxin"] = &resInst{name: "rlxin", param: "rnet", kind: "relaxed-mailbox-local", class: clsIn, queue: "rlxin"}
+	protoTable["rlxout"] = &resInst{name: "rlxout", param: "rnet", kind: "relaxed-mailbox-remote", class: clsOut, queue: "rlxout", loud: true}
+	protoTable["sout"] = &resInst{name: "sout", param: "sout", kind: "singleoutputchan", class: clsOut, queue: "sout", loud: true, loudOnTouch: true}
+	protoTable["pers"] = &resInst{name: "pers", param: "pers", kind: "persistent-local", class: clsCell, keys: [][]int{nil}, persist: "pers"}
+	protoTable["persi"] = &resInst{name: "persi", param: "persi", kind: "persistent-local", class: clsCell, keys: [][]int{{1}, {2}}, persist: "persi"}
+	protoTable["persh"] = &resInst{name: "persh", param: "persh", kind: "persistent-localshared", class: clsCell, keys: [][]int{nil}, persist: "persh"}
+	protoTable["plog"] = &resInst{name: "plog", param: "plog", kind: "raftkvs-persistentlog", class: clsLog, queue: "plog"}
+	protoTable["crdt"] = &resInst{name: "crdt", param: "crdt", kind: "crdt-gcounter", class: clsCounter, keys: [][]int{nil}}
+	protoTable["tpc"] = &resInst{name: "tpc", param: "tpc", kind: "twopc", class: clsCell, keys: [][]int{nil}}
+	protoTable["tpcsub"] = &resInst{name: "tpcsub", param: "fmap", kind: "twopc", class: clsCell, keys: [][]int{{4}}}
+	protoTable["nest"] = &resInst{name: "nest", param: "nest", kind: "nested-archetype", class: clsCell, keys: [][]int{nil}, slowable: true}
+	allInsts = append(allInsts, "persi")
+
+	builders["cin"] = func(w *world) error {
+		ch := make(chan tla.Value, 4096)
+		ri := proto("cin")
+		ri.feed = func(cr *caseRun, vals []int32) error {
+			for _, v := range vals {
+				ch <- tla.MakeNumber(v)
+			}
+			return nil
+		}
+		w.addInst(ri, w.wrapRes("cin", "custominchan", raftkvs.NewCustomInChan(ch, 5*time.Second)))
+		return nil
+	}
+	builders["tcp"] = func(w *world) error { return buildMailboxes(w, false) }
+	builders["rlx"] = func(w *world) error { return buildMailboxes(w, true) }
+	builders["sout"] = func(w *world) error {
+		ch := make(chan tla.Value, 4096)
+		ri := proto("sout")
+		ri.observe = func(cr *caseRun) {
+			var got []int32
+			for {
+				select {
+				case v := <-ch:
+					t, ok := numDec(v.StripVClock())
+					if !ok {
+						t = -1
+					}
+					got = append(got, t)
+					continue
+				default:
+				}
+				break
+			}
+			cr.compareOut(ri, got, "Go channel far end")
+		}
+		w.addInst(ri, w.wrapRes("sout", "singleoutputchan", resources.NewSingleOutputChan(ch)))
+		return nil
+	}
+	builders["pers"] = func(w *world) error {
+		return buildPersistent(w, "pers", distsys.NewLocalArchetypeResource(tla.MakeNumber(0)), nil)
+	}
+	builders["persi"] = func(w *world) error {
+		return buildPersistent(w, "persi", distsys.NewLocalArchetypeResource(tla.MakeTuple(tla.MakeNumber(0), tla.MakeNumber(0))), nil)
+	}
+	builders["persh"] = func(w *world) error {
+		shm := resources.NewLocalSharedManager(tla.MakeNumber(0), resources.WithLocalSharedResourceTimeout(20*time.Millisecond))
+		return buildPersistent(w, "persh", shm.MakeLocalShared(), shm.MakeLocalShared())
+	}
+	builders["plog"] = buildPlog
+	builders["crdt"] = buildCRDT
+	builders["tpc"] = buildTwoPC
+	builders["nest"] = buildNested
+}
+
+func freeAddr() string {
+	l, err := net.Listen("tcp", "127.0.0.1:0")
+	if err != nil {
+		panic(err)
+	}
+	a := l.Addr().String()
+	l.Close()
+	return a
+}
+
+// ---------------------------------------------------------------- mailboxes
+
+func buildMailboxes(w *world, relaxed bool) error {
+	addrMain, addrPeer := freeAddr(), freeAddr()
+	// write/dial timeouts far beyond anything machine load can cause: a commit ack that arrives after the write
+	// timeout makes the sender resend the batch (C06's known defect), which is not what this check is about
+	opts := []resources.MailboxesOption{resources.WithMailboxesReadTimeout(30 * time.Millisecond),
+		resources.WithMailboxesWriteTimeout(60 * time.Second), resources.WithMailboxesDialTimeout(10 * time.Second)}
+	mk := func(fn resources.MailboxesAddressMappingFn) *resources.Mailboxes {
+		if relaxed {
+			return resources.NewRelaxedMailboxes(fn, opts...)
+		}
+		return resources.NewTCPMailboxes(fn, opts...)
+	}
+	one, two := tla.MakeNumber(1), tla.MakeNumber(2)
+	mainMB := mk(func(i tla.Value) (resources.MailboxKind, string) {
+		if i.Equal(one) {
+			return resources.MailboxesLocal, addrMain
+		}
+		return resources.MailboxesRemote, addrPeer
+	})
+	peerMB := mk(func(i tla.Value) (resources.MailboxKind, string) { return resources.MailboxesLocal, addrPeer })
+	senderMB := mk(func(i tla.Value) (resources.MailboxKind, string) { return resources.MailboxesRemote, addrMain })
+	// listeners exist from the start (a mailbox is realised on first Index); Commit clears the map's dirty set again
+	if _, err := mainMB.Index(zeroIface, one); err != nil {
+		return err
+	}
+	mainMB.Commit(zeroIface)
+	if _, err := peerMB.Index(zeroIface, two); err != nil {
+		return err
+	}
+	peerMB.Commit(zeroIface)
+	w.closers = append(w.closers, func() {
+		go func() { // tcpMailboxesLocal.Close sleeps 500 ms
+			defer func() { _ = recover() }()
+			mainMB.Close()
+			peerMB.Close()
+			senderMB.Close()
+		}()
+	})
+	param, inName, outName, kind := "net", "tcpin", "tcpout", "tcp-mailboxes"
+	if relaxed {
+		param, inName, outName, kind = "rnet", "rlxin", "rlxout", "relaxed-mailboxes"
+	}
+	top := w.wrapRes(param, kind, mainMB)
+	in := proto(inName)
+	in.idxVals = func([]int) []tla.Value { return []tla.Value{one} }
+	in.feed = func(cr *caseRun, vals []int32) error {
+		// a second archetype sends the values to the mailbox in one committed section
+		return runHelper(3, senderMB, 100, func(iface distsys.ArchetypeInterface, h distsys.ArchetypeResourceHandle) error {
+			if relaxed && len(vals) > 1 {
+				vals = vals[:1] // at most one relaxed send per section
+			}
+			for _, v := range vals {
+				if err := iface.Write(h, []tla.Value{one}, tla.MakeNumber(v)); err != nil {
+					return err
+				}
+			}
+			return nil
+		})
+	}
+	if relaxed {
+		feed := in.feed
+		in.feed = func(cr *caseRun, vals []int32) error {
+			for _, v := range vals {
+				if err := feed(cr, []int32{v}); err != nil {
+					return err
+				}
+			}
+			return nil
+		}
+	}
+	out := proto(outName)
+	out.idxVals = func([]int) []tla.Value { return []tla.Value{two} }
+	out.farDrain = func(cr *caseRun, marker int32) ([]int32, error) {
+		// a second archetype owning the peer mailbox takes one message per committed section until the marker
+		var got []int32
+		for len(got) < 256 {
+			var v tla.Value
+			err := runHelper(2, peerMB, 200, func(iface distsys.ArchetypeInterface, h distsys.ArchetypeResourceHandle) error {
+				var e error
+				v, e = iface.Read(h, []tla.Value{two})
+				return e
+			})
+			if err != nil {
+				return got, err
+			}
+			t, ok := numDec(v)
+			if !ok {
+				t = -1
+			}
+			got = append(got, t)
+			if t == marker {
+				return got, nil
+			}
+		}
+		return got, errors.New("no marker within 256 messages")
+	}
+	w.addInst(in, top)
+	w.addInst(out, top)
+	return nil
+}
+
+// buildTCPSub puts a real TCP mailbox collection (remote end) under the harness map "fmap", next to the child
+// whose PreCommit fails: fmap[3][2] := msg. The peer mailbox is read by a second archetype.
+func buildTCPSub(w *world) error {
+	addrPeer := freeAddr()
+	// write/dial timeouts far beyond anything machine load can cause: a commit ack that arrives after the write
+	// timeout makes the sender resend the batch (C06's known defect), which is not what this check is about
+	opts := []resources.MailboxesOption{resources.WithMailboxesReadTimeout(30 * time.Millisecond),
+		resources.WithMailboxesWriteTimeout(60 * time.Second), resources.WithMailboxesDialTimeout(10 * time.Second)}
+	two, three := tla.MakeNumber(2), tla.MakeNumber(3)
+	// the sender reaches the peer through a relay that delays the peer's answers (acks) by a few milliseconds, so a
+	// pre-commit handshake abandoned by the map is still in flight while the retry already uses the connection
+	relay, err := newDelayRelay(addrPeer, 3*time.Millisecond)
+	if err != nil {
+		return err
+	}
+	w.closers = append(w.closers, relay.close)
+	subMB := resources.NewTCPMailboxes(func(tla.Value) (resources.MailboxKind, string) { return resources.MailboxesRemote, relay.addr }, opts...)
+	peerMB := resources.NewTCPMailboxes(func(tla.Value) (resources.MailboxKind, string) { return resources.MailboxesLocal, addrPeer }, opts...)
+	if _, err := peerMB.Index(zeroIface, two); err != nil {
+		return err
+	}
+	peerMB.Commit(zeroIface)
+	w.closers = append(w.closers, func() {
+		go func() {
+			defer func() { _ = recover() }()
+			subMB.Close()
+			peerMB.Close()
+		}()
+	})
+	w.fmapSub = w.wrapRes("fmap[3]", "tcp-mailboxes", subMB)
+	out := proto("tcpsub")
+	out.idxVals = func([]int) []tla.Value { return []tla.Value{three, two} }
+	out.farDrain = func(cr *caseRun, marker int32) ([]int32, error) {
+		var got []int32
+		for len(got) < 256 {
+			var v tla.Value
+			err := runHelper(2, peerMB, 200, func(iface distsys.ArchetypeInterface, h distsys.ArchetypeResourceHandle) error {
+				var e error
+				v, e = iface.Read(h, []tla.Value{two})
+				return e
+			})
+			if err != nil {
+				return got, err
+			}
+			t, ok := numDec(v)
+			if !ok {
+				t = -1
+			}
+			got = append(got, t)
+			if t == marker {
+				return got, nil
+			}
+		}
+		return got, errors.New("no marker within 256 messages")
+	}
+	w.addInst(out, nil)
+	return nil
+}
+
+// ---------------------------------------------------------------- persistence
+
+func (sh *childShared) badger() (*badger.DB, error) {
+	sh.dbMu.Lock()
+	defer sh.dbMu.Unlock()
+	if sh.db != nil {
+		return sh.db, nil
+	}
+	opts := badger.DefaultOptions(filepath.Join(sh.scratch, "badger")).WithLogger(nil).
+		WithMemTableSize(8 << 20).WithValueLogFileSize(32 << 20).WithNumMemtables(2).
+		WithBlockCacheSize(1 << 20).WithIndexCacheSize(1 << 20).WithNumCompactors(2)
+	db, err := badger.Open(opts)
+	if err != nil {
+		return nil, err
+	}
+	sh.db = db
+	return db, nil
+}
+
+func badgerGet(db *badger.DB, key string) (val tla.Value, found bool, err error) {
+	err = db.View(func(txn *badger.Txn) error {
+		item, e := txn.Get([]byte(key))
+		if e == badger.ErrKeyNotFound {
+			return nil
+		}
+		if e != nil {
+			return e
+		}
+		found = true
+		return item.Value(func(b []byte) error {
+			return gob.NewDecoder(bytes.NewReader(b)).Decode(&val)
+		})
+	})
+	return
+}
+
+func buildPersistent(w *world, name string, inner resources.Persistable, second resources.Persistable) error {
+	db, err := w.shared.badger()
+	if err != nil {
+		return err
+	}
+	storeName := w.id + "-" + name
+	ri := proto(name)
+	indexed := len(ri.keys) > 1
+	for _, k := range ri.keys {
+		w.mod.Cells[ri.key(k)] = 0
+	}
+	symDur := "durable-state-differs"
+	if indexed {
+		// the durable copy of a variable that is (also) written through an index
+		symDur = "durable-copy-of-indexed-variable-differs"
+	}
+	ri.observe = func(cr *caseRun) {
+		v, found, err := badgerGet(db, "pres-"+storeName)
+		if err != nil {
+			cr.harness("badger read: %v", err)
+			return
+		}
+		want, has := cr.w.mod.Stored[ri.persist]
+		switch {
+		case !has && found:
+			cr.violate(ri.kind, "durable-state-differs", "badger key pres-%s holds %s although no committed section wrote %s", storeName, v.String(), name)
+		case has && !found:
+			cr.violate(ri.kind, symDur, "badger key pres-%s is absent, committed model %s", storeName, want)
+		case has && v.String() != want:
+			sym := symDur
+			cr.violate(ri.kind, sym, "badger key pres-%s holds %s, committed model %s", storeName, v.String(), want)
+		}
+		if second != nil {
+			sv, err := lockedState(second)
+			if err != nil {
+				cr.violate(ri.kind, "shared-variable-left-locked", "%s: %v", name, err)
+				return
+			}
+			cr.compareCell(ri, nil, sv, "second-sharer view (GetState)")
+		}
+	}
+	ri.storedString = func(m *model) string {
+		if !indexed {
+			return strconv.Itoa(int(m.Cells[ri.key(nil)]))
+		}
+		return tla.MakeTuple(tla.MakeNumber(m.Cells[ri.key([]int{1})]), tla.MakeNumber(m.Cells[ri.key([]int{2})])).String()
+	}
+	w.addInst(ri, w.wrapRes(name, ri.kind, resources.MakePersistent(storeName, db, inner)))
+	return nil
+}
+
+// lockedState reads a shared variable's committed value through another sharer; between attempts nobody holds
+// the lock, so a GetState that does not return means the previous attempt left the variable locked.
+func lockedState(p resources.Persistable) (tla.Value, error) {
+	type res struct {
+		v   tla.Value
+		err error
+	}
+	ch := make(chan res, 1)
+	go func() {
+		v, err := decodeState(p.GetState())
+		ch <- res{v, err}
+	}()
+	select {
+	case r := <-ch:
+		return r.v, r.err
+	case <-time.After(5 * time.Second): // 250 of the variable's own lock timeouts
+		return tla.Value{}, errors.New("the variable's lock was not released after the attempt finished (second sharer blocked for 250 lock-timeout periods)")
+	}
+}
+
+var (
+	logConcat = tla.MakeString("log_concat")
+	logPop    = tla.MakeString("log_pop")
+)
+
+func buildPlog(w *world) error {
+	db, err := w.shared.badger()
+	if err != nil {
+		return err
+	}
+	storeName := w.id + "-plog"
+	ri := proto("plog")
+	ri.observe = func(cr *caseRun) {
+		want := cr.w.mod.Logs["plog"]
+		for i := 0; i <= len(want)+2; i++ {
+			v, found, err := badgerGet(db, fmt.Sprintf("raftkvs.plog.%v.%d", storeName, i))
+			if err != nil {
+				cr.harness("badger read: %v", err)
+				return
+			}
+			switch {
+			case i < len(want) && !found:
+				cr.violate(ri.kind, "durable-state-differs", "badger has no entry %d of the log, committed model %v", i, want)
+				return
+			case i < len(want):
+				if t, ok := numDec(v); !ok || t != want[i] {
+					cr.violate(ri.kind, "durable-state-differs", "badger entry %d of the log is %s, committed model %v", i, v.String(), want)
+					return
+				}
+			case found:
+				cr.violate(ri.kind, "durable-state-differs", "badger holds entry %d (%s) beyond the committed log %v", i, v.String(), want)
+				return
+			}
+		}
+	}
+	w.addInst(ri, w.wrapRes("plog", ri.kind, raftkvs.NewPersistentLog(storeName, db)))
+	return nil
+}
 
 func (cr *caseRun) execLog(iface distsys.ArchetypeInterface, h distsys.ArchetypeResourceHandle, ri *resInst, k int, op Op, from *int32,
 	touched func(), refused func(error) error) (int32, bool, error) {
+	cur := cr.trial.Logs[ri.queue]
+	if op.Kind == "write" {
+		var val tla.Value
+		var next []int32
+		var what string
+		if op.Hint%3 == 0 && len(cur) > 0 {
+			cnt := 1 + op.Hint%len(cur)
+			val = tla.MakeRecord([]tla.RecordField{{Key: tla.MakeString("cmd"), Value: logPop}, {Key: tla.MakeString("cnt"), Value: tla.MakeNumber(int32(cnt))}})
+			next = append([]int32(nil), cur[:len(cur)-cnt]...)
+			what = fmt.Sprintf("pop %d", cnt)
+		} else {
+			n := 1 + op.Hint%2
+			var entries []tla.Value
+			next = append([]int32(nil), cur...)
+			for i := 0; i < n; i++ {
+				v := cr.fresh()
+				if i == 0 && from != nil {
+					v = *from
+				}
+				entries = append(entries, tla.MakeNumber(v))
+				next = append(next, v)
+			}
+			val = tla.MakeRecord([]tla.RecordField{{Key: tla.MakeString("cmd"), Value: logConcat}, {Key: tla.MakeString("entries"), Value: tla.MakeTuple(entries...)}})
+			what = fmt.Sprintf("concat %v", next[len(cur):])
+		}
+		if e := iface.Write(h, nil, val); e != nil {
+			return 0, false, refused(e)
+		}
+		touched()
+		cr.trial.Logs[ri.queue] = next
+		cr.histf("  op %d write %s %s", k, ri.name, what)
+		return 0, false, nil
+	}
+	if len(op.Idx) == 1 && len(cur) > 0 {
+		i := 1 + op.Idx[0]%len(cur)
+		v, e := iface.Read(h, []tla.Value{tla.MakeNumber(int32(i))})
+		if e != nil {
+			return 0, false, refused(e)
+		}
+		touched()
+		cr.histf("  op %d read %s[%d] = %s", k, ri.name, i, v.String())
+		if t, ok := numDec(v); !ok || t != cur[i-1] {
+			cr.violate(ri.kind, "read-differs-from-model", "attempt %d op %d read %s[%d] = %s, model log %v", cr.attempt, k, ri.name, i, v.String(), cur)
+		}
+		return cur[i-1], true, nil
+	}
+	v, e := iface.Read(h, nil)
+	if e != nil {
+		return 0, false, refused(e)
+	}
+	touched()
+	var want []tla.Value
+	for _, x := range cur {
+		want = append(want, tla.MakeNumber(x))
+	}
+	cr.histf("  op %d read %s = %s", k, ri.name, v.String())
+	if !v.Equal(tla.MakeTuple(want...)) {
+		cr.violate(ri.kind, "read-differs-from-model", "attempt %d op %d read %s = %s, model log %v", cr.attempt, k, ri.name, v.String(), cur)
+	}
 	return 0, false, nil
 }
+
+// ---------------------------------------------------------------- CRDT
+
+func buildCRDT(w *world) error {
+	one, two := tla.MakeNumber(1), tla.MakeNumber(2)
+	addrs := map[int32]string{1: freeAddr(), 2: freeAddr()}
+	fn := func(id tla.Value) string { return addrs[id.AsNumber()] }
+	peers := []tla.Value{one, two}
+	mainC := resources.NewCRDT(one, peers, fn, resources.GCounter{}, resources.WithCRDTBroadcastInterval(5*time.Millisecond))
+	peerC := resources.NewCRDT(two, peers, fn, resources.GCounter{}, resources.WithCRDTBroadcastInterval(5*time.Millisecond))
+	w.closers = append(w.closers, func() { mainC.Close(); peerC.Close() })
+	ri := proto("crdt")
+	ri.observe = func(cr *caseRun) {
+		v, err := peerC.ReadValue(zeroIface)
+		if err != nil {
+			cr.harness("peer crdt read: %v", err)
+			return
+		}
+		want := cr.w.mod.Cells["crdt"]
+		if t, ok := numDec(v); !ok || t > want {
+			cr.violate(ri.kind, "far-end-saw-uncommitted-increment", "peer replica counts %s, committed sections incremented to %d", v.String(), want)
+		}
+	}
+	w.mod.Cells["crdt"] = 0
+	w.addInst(ri, w.wrapRes("crdt", ri.kind, mainC))
+	return nil
+}
+
+// ---------------------------------------------------------------- TwoPC
+
+// rcvrHandle is a replica handle that reaches a 2PC node of the same process through its exported RPC method.
+type rcvrHandle struct{ rcvr **resources.TwoPCReceiver }
+
+func (h rcvrHandle) Send(req resources.TwoPCRequest, reply *resources.TwoPCResponse) chan error {
+	ch := make(chan error, 1)
+	ch <- (*h.rcvr).Receive(req, reply)
+	return ch
+}
+func (h rcvrHandle) Close() error { return nil }
+
+func buildTwoPC(w *world) error {
+	ri, a, err := makeTwoPC(w, "tpc")
+	if err != nil {
+		return err
+	}
+	w.addInst(ri, w.wrapRes("tpc", ri.kind, a))
+	return nil
+}
+
+// buildTwoPCSub puts a 2PC variable under the harness map "fmap" (fmap[4]), next to the child whose PreCommit fails.
+func buildTwoPCSub(w *world) error {
+	ri, a, err := makeTwoPC(w, "tpcsub")
+	if err != nil {
+		return err
+	}
+	w.fmapTpc = w.wrapRes("fmap[4]", ri.kind, a)
+	w.addInst(ri, nil)
+	return nil
+}
+
+func makeTwoPC(w *world, name string) (*resInst, distsys.ArchetypeResource, error) {
+	var rcvA, rcvB *resources.TwoPCReceiver
+	b := resources.NewTwoPC(tla.MakeNumber(0), "127.0.0.1:0", nil, tla.MakeString(w.id+"-"+name+"-B"), func(r *resources.TwoPCReceiver) { rcvB = r })
+	a := resources.NewTwoPC(tla.MakeNumber(0), "127.0.0.1:0", []resources.ReplicaHandle{rcvrHandle{&rcvB}}, tla.MakeString(w.id+"-"+name+"-A"),
+		func(r *resources.TwoPCReceiver) { rcvA = r })
+	w.closers = append(w.closers, func() {
+		a.Close()
+		b.Close()
+		resources.CloseTwoPCReceiver(rcvA)
+		resources.CloseTwoPCReceiver(rcvB)
+	})
+	obs := tla.MakeString(w.id + "-observer")
+	ri := proto(name)
+	var cellIdx []int
+	if len(ri.keys) > 0 {
+		cellIdx = ri.keys[0]
+	}
+	ri.observe = func(cr *caseRun) {
+		var rep resources.TwoPCResponse
+		if err := rcvB.Receive(resources.TwoPCRequest{RequestType: resources.GetState, Sender: obs, SenderTime: time.Now().UnixNano()}, &rep); err != nil {
+			cr.harness("2PC GetState: %v", err)
+			return
+		}
+		cr.compareCell(ri, cellIdx, rep.Value, "replica state (GetState RPC)")
+		// between attempts the replica must not be holding a pre-commit of the archetype under test: another
+		// proposer's PreCommit for the next version has to be accepted (and is withdrawn again at once)
+		var acc resources.TwoPCResponse
+		probe := resources.TwoPCRequest{RequestType: resources.PreCommit, Value: tla.MakeNumber(0), Sender: obs, Version: rep.Version + 1, SenderTime: time.Now().UnixNano()}
+		if err := rcvB.Receive(probe, &acc); err != nil {
+			cr.harness("2PC probe PreCommit: %v", err)
+			return
+		}
+		if !acc.Accept {
+			cr.violate(ri.kind, "replica-still-holds-precommit", "after attempt %d (%s) the replica rejects another proposer's PreCommit for version %d: a pre-commit of the section is still in place", cr.attempt, cr.outcome, rep.Version+1)
+			return
+		}
+		probe.RequestType, probe.SenderTime = resources.Abort, time.Now().UnixNano()
+		if err := rcvB.Receive(probe, &acc); err != nil {
+			cr.harness("2PC probe Abort: %v", err)
+		}
+	}
+	w.mod.Cells[ri.key(cellIdx)] = 0
+	return ri, a, nil
+}
+
+// ---------------------------------------------------------------- nested archetype
+
+// nestedCell is a hand-built MPCal archetype implementing a one-cell resource behind resources.NewNested:
+// one label that serves one request per critical section.
+func nestedCell(slow *int32) distsys.MPCalArchetype {
+	str := tla.MakeString
+	rec := func(tpe string, extra ...tla.RecordField) tla.Value {
+		return tla.MakeRecord(append(extra, tla.RecordField{Key: str("tpe"), Value: str(tpe)}))
+	}
+	body := func(iface distsys.ArchetypeInterface) error {
+		in, err := iface.RequireArchetypeResourceRef("N.in")
+		if err != nil {
+			return err
+		}
+		out, err := iface.RequireArchetypeResourceRef("N.out")
+		if err != nil {
+			return err
+		}
+		cell := iface.RequireArchetypeResource("N.cell")
+		stable := iface.RequireArchetypeResource("N.stable")
+		req, err := iface.Read(in, nil)
+		if err != nil {
+			return err
+		}
+		if atomic.CompareAndSwapInt32(slow, 1, 0) {
+			time.Sleep(150 * time.Millisecond) // a slow implementation: the caller's request times out (100 ms)
+		}
+		var resp tla.Value
+		switch req.ApplyFunction(str("tpe")).AsString() {
+		case "read_req":
+			v, err := iface.Read(cell, nil)
+			if err != nil {
+				return err
+			}
+			resp = rec("read_ack", tla.RecordField{Key: str("value"), Value: v})
+		case "write_req":
+			if err := iface.Write(cell, nil, req.ApplyFunction(str("value"))); err != nil {
+				return err
+			}
+			resp = rec("write_ack")
+		case "precommit_req":
+			resp = rec("precommit_ack")
+		case "commit_req":
+			v, err := iface.Read(cell, nil)
+			if err != nil {
+				return err
+			}
+			if err := iface.Write(stable, nil, v); err != nil {
+				return err
+			}
+			resp = rec("commit_ack")
+		case "abort_req":
+			v, err := iface.Read(stable, nil)
+			if err != nil {
+				return err
+			}
+			if err := iface.Write(cell, nil, v); err != nil {
+				return err
+			}
+			resp = rec("abort_ack")
+		default:
+			return fmt.Errorf("nested cell: unknown request %v", req)
+		}
+		if err := iface.Write(out, nil, resp); err != nil {
+			return err
+		}
+		return iface.Goto("N.loop")
+	}
+	return distsys.MPCalArchetype{Name: "N", Label: "N.loop", RequiredRefParams: []string{"N.in", "N.out"},
+		JumpTable: distsys.MakeMPCalJumpTable(distsys.MPCalCriticalSection{Name: "N.loop", Body: body}),
+		ProcTable: distsys.MakeMPCalProcTable(),
+		PreAmble: func(iface distsys.ArchetypeInterface) {
+			iface.EnsureArchetypeResourceLocal("N.cell", tla.MakeNumber(0))
+			iface.EnsureArchetypeResourceLocal("N.stable", tla.MakeNumber(0))
+		}}
+}
+
+func buildNested(w *world) error {
+	slow := new(int32)
+	res := resources.NewNested(func(sendCh chan<- tla.Value, receiveCh <-chan tla.Value) []*distsys.MPCalContext {
+		return []*distsys.MPCalContext{distsys.NewMPCalContext(tla.MakeString(w.id+"-nested"), nestedCell(slow),
+			distsys.EnsureArchetypeRefParam("in", resources.NewInputChan(receiveCh, resources.WithInputChanReadTimeout(10*time.Millisecond))),
+			distsys.EnsureArchetypeRefParam("out", resources.NewOutputChan(sendCh)))}
+	})
+	w.closers = append(w.closers, func() {
+		if w.dead {
+			return // an Abort goroutine may still be waiting for the nested archetype; stopping it now would panic there
+		}
+		res.Close()
+	})
+	ri := proto("nest")
+	w.mod.Cells["nest"] = 0
+	wr := w.wrapRes("nest", ri.kind, res)
+	// slow-resource fault: the next request takes longer than the resource's own timeout, and the refusal reaches
+	// the context only after the nested archetype has finished (the caller was descheduled meanwhile)
+	ri.makeSlow = func(on bool) {
+		if on {
+			atomic.StoreInt32(slow, 1)
+			wr.refusalDelay = 120 * time.Millisecond
+		} else {
+			wr.refusalDelay = 0
+		}
+	}
+	w.addInst(ri, wr)
+	return nil
+}
+
+var _ = sync.Mutex{}
+
+// delayRelay forwards TCP connections to target; bytes travelling back from the target are delayed.
+type delayRelay struct {
+	addr string
+	l    net.Listener
+}
+
+func newDelayRelay(target string, back time.Duration) (*delayRelay, error) {
+	l, err := net.Listen("tcp", "127.0.0.1:0")
+	if err != nil {
+		return nil, err
+	}
+	r := &delayRelay{addr: l.Addr().String(), l: l}
+	go func() {
+		for {
+			c, err := l.Accept()
+			if err != nil {
+				return
+			}
+			go func() {
+				s, err := net.Dial("tcp", target)
+				if err != nil {
+					c.Close()
+					return
+				}
+				go func() {
+					buf := make([]byte, 4096)
+					for {
+						n, err := c.Read(buf)
+						if n > 0 {
+							s.Write(buf[:n])
+						}
+						if err != nil {
+							s.Close()
+							return
+						}
+					}
+				}()
+				buf := make([]byte, 4096)
+				for {
+					n, err := s.Read(buf)
+					if n > 0 {
+						time.Sleep(back)
+						c.Write(buf[:n])
+					}
+					if err != nil {
+						c.Close()
+						return
+					}
+				}
+			}()
+		}
+	}()
+	return r, nil
+}
+
+func (r *delayRelay) close() { r.l.Close() }
